@@ -1,6 +1,6 @@
 """Deterministic probes of refusal sites the random stream reaches rarely (C19)."""
 from __future__ import annotations
-import decimal
+import datetime, decimal
 from autobean_refactor import models
 import intro, edits
 
@@ -120,6 +120,25 @@ def _sites():
     s_cost_total_attached_unit_amount = _cost_attached('{2 EUR}', 'raw_number_total')
     del _cost_attached
 
+    CUSTOM_DOC = '2000-01-01 custom "budget" "a" 1 TRUE 2000-02-03\n2000-01-02 *\n  Assets:A  3 + 4 USD\n'
+
+    def _values_batch(build):
+        """A batch assigned through the simplified value view: plain Python values (which the view would write in place)
+        mixed with a node that must be refused - nothing of the batch may have been written when the call raises."""
+        def site(f, g):
+            h = edits.P().parse(CUSTOM_DOC, models.File)
+            yield h
+            idx, batch = build(h)
+            h.raw_directives[0].values[idx] = batch
+        return site
+    s_values_plain_then_attached = _values_batch(lambda h: (slice(0, 2), ['changed', h.raw_directives[1].raw_postings[0].raw_number]))
+    s_values_attached_then_plain = _values_batch(lambda h: (slice(0, 2), [h.raw_directives[1].raw_postings[0].raw_number, decimal.Decimal(9)]))
+    s_values_plain_then_dup = _values_batch(lambda h: (slice(0, 3), ['changed'] + [models.NumberExpr.from_value(decimal.Decimal(5))] * 2))
+    s_values_ext_slice_plain_attached = _values_batch(lambda h: (slice(0, 4, 2), ['changed', h.raw_directives[1].raw_postings[0].raw_number]))
+    s_values_bool_date_then_attached = _values_batch(lambda h: (slice(2, 5), [False, datetime.date(1999, 9, 9), h.raw_directives[1].raw_postings[0].raw_number]))
+    s_values_own_item_twice = _values_batch(lambda h: (slice(0, 2), ['changed', h.raw_directives[0].raw_values[2]]))
+    del _values_batch
+
     def s_directive_other_doc(f, g):
         f.raw_directives.append(g.raw_directives[0])
     return {k[2:]: v for k, v in locals().items() if k.startswith('s_')}
@@ -131,8 +150,11 @@ def _run_site(name, fn):
     g = p.parse(DOC, models.File)
     import inspect
     it = fn(f, g) if inspect.isgeneratorfunction(fn) else None
+    h = None
     if it is not None:
-        next(it)  # setup part (accepted edits before the call under test)
+        h = next(it)  # setup part (accepted edits before the call under test); may hand over a document of its own
+    if h is not None:
+        f = h
     pre = (intro.pr(f), intro.struct(f), intro.pr(g), intro.struct(g))
     try:
         if it is not None:
@@ -173,7 +195,9 @@ MUST_REFUSE = {'claim_foreign', 'unclaim_foreign', 'claim_claimed', 'cost_illega
                'missing_key', 'pop_oob', 'dup_in_batch', 'posting_attached', 'number_attached_slot',
                'replace_with_attached_other_doc', 'directive_other_doc', 'payee_attached_no_narration',
                'cost_per_attached_total_amount', 'cost_per_attached_total_currency', 'cost_per_attached_total_empty',
-               'cost_total_attached_unit_currency', 'cost_total_attached_unit_empty', 'cost_total_attached_unit_amount'}
+               'cost_total_attached_unit_currency', 'cost_total_attached_unit_empty', 'cost_total_attached_unit_amount',
+               'values_plain_then_attached', 'values_attached_then_plain', 'values_plain_then_dup', 'values_ext_slice_plain_attached',
+               'values_bool_date_then_attached', 'values_own_item_twice'}
 
 
 def run(ctx):
